@@ -404,7 +404,7 @@ Section Transition.
       wp (match r with
           | Some s' => ret (Some s')
           | None =>
-              bind get (fun w1 => bind (put (w1 <| st := Some ns |>)) (fun _ =>
+              bind get (fun w1 => bind (put (w1 <| st := Some ns |> <| wintr := None |> <| wrecalled := None |>)) (fun _ =>
               bind (emit (EvEntered (cur_label w) (label_of ns))) (fun _ =>
               bind get (fun w2 => bind (when (hooks_alive w2) (on_entered rec_ctl w)) (fun _ => ret None)))))
           end) Q w1).
@@ -614,6 +614,22 @@ Section Control.
     eapply schedule_spec; [exact H1|]. intros w2 H2 L2 _. apply HQ; auto. etransitivity; [exact L2 | exact L1].
   Qed.
 
+  Lemma state_recall_spec iid w0 w (Q : result unit -> world -> Prop) :
+    R w0 w -> (forall r w', R w0 w' -> Q r w') -> wp (state_recall iid) Q w.
+  Proof.
+    intros HR HQ. unfold state_recall. do 2 wp_prim. wp_case; [|wp_prim; apply HQ; exact HR].
+    wp_case; [|wp_prim; apply HQ; exact HR]. do 2 wp_prim.
+    match goal with |- wp _ _ ?w' => assert (H1 : R w0 w') by r_frame end.
+    destruct (st w) as [cur|] eqn:Hst; [|wp_prim; apply HQ; exact H1].
+    destruct cur; try (wp_prim; apply HQ; exact H1). destruct wf as [|wk0]; [wp_prim; apply HQ; exact H1|].
+    destruct wk0; try (wp_prim; apply HQ; exact H1).
+    wp_case; [|wp_prim; apply HQ; exact H1].
+    use fresh_frame; [exact H1|]. intros r w2 H2 S2. destruct r as [wid'|e]; cbv beta iota; [|apply HQ; exact H2].
+    wp_prim. apply HQ.
+    eapply R_st_label; [exact H2 | reflexivity | reflexivity | reflexivity | reflexivity |].
+    do 2 eexists. split; [rewrite S2; exact Hst|]. split; reflexivity.
+  Qed.
+
   Lemma do_pause_spec msg next w0 w (Q : result bool -> world -> Prop) :
     R w0 w -> (next = None \/ live w) -> (forall r w', R w0 w' -> Q r w') -> wp (do_pause rec_ctl msg next) Q w.
   Proof.
@@ -678,11 +694,17 @@ Section Control.
       wp_case; try (wp_prim; apply Hk; exact H1). wp_case; [|apply Hk; exact H1].
       eapply schedule_spec; [exact H1|]. intros w2 H2 _ _. cbv beta iota. apply Hk; exact H2.
     - wp_prim. wp_case.
-      + use cancel_act_frame; [exact HR|]. intros r w1 H1 _. destruct r; cbv beta iota.
-        * do 2 wp_prim. eapply set_interrupt_action_frame; [r_frame|]. intros r w2 H2 _. destruct r; cbv beta iota.
-          -- wp_prim. apply HQ; exact H2.
-          -- apply HQ; exact H2.
-        * apply HQ; exact H1.
+      + assert (Hk : forall w1, R w0 w1 ->
+          wp (bind (cancel_act n) (fun _ => bind (modify (fun w => w <| pausing := None |>)) (fun _ => set_interrupt_action None)))
+             (fun r s' => match r with Ok _ => wp (ret (CrBool true)) Q s' | Err e => Q (Err e) s' end) w1).
+        { intros w1 H1. use cancel_act_frame; [exact H1|]. intros r w2 H2 _. destruct r; cbv beta iota.
+          * do 2 wp_prim. eapply set_interrupt_action_frame; [r_frame|]. intros r w3 H3 _. destruct r; cbv beta iota.
+            -- wp_prim. apply HQ; exact H3.
+            -- apply HQ; exact H3.
+          * apply HQ; exact H2. }
+        wp_prim. wp_case.
+        * eapply state_recall_spec; [exact HR|]. intros r w1 H1. destruct r; cbv beta iota; [apply Hk; exact H1 | apply HQ; exact H1].
+        * wp_prim. apply Hk; exact HR.
       + do 2 wp_prim. apply HQ; exact HR.
   Qed.
 
@@ -795,11 +817,33 @@ Proof.
     eapply set_act_fut_frame; [exact H1|]. intros r2 w2 H2 _. apply HQ; exact H2. }
   wp_case.
   - eapply do_pause_spec; [apply do_ctl_spec | exact HR | right; exact Hpre |]. intros r w1 H1. cbv beta iota. apply Hk; exact H1.
-  - wp_prim. use transition_spec; [exact HR | exact Hpre | ].
-    intros r w1 H1.
-    destruct r; cbv beta iota.
-    + do 2 wp_prim. apply (Hk (Ok true)). r_frame.
-    + wp_prim. apply (Hk (Err e)). r_frame.
+  - wp_prim.
+    assert (Hcase : forall (tgt : option pstate) (b : bool),
+       match tgt with None => True | Some _ => live w end ->
+       wp (bind (transition tgt) (fun _ => ret b))
+          (fun r s' => wp (modify (fun w => w <| killing := None |>))
+             (fun r2 s'' => match r2 with
+                            | Ok _ => wp (bind get (fun w' =>
+                                match get_act w' id with
+                                | Some a' => match a_fut a' with
+                                             | AfPending => set_act_fut id (match r with Ok b => AfVal b | Err e => AfExn e end)
+                                             | _ => raise EInvalidState
+                                             end
+                                | None => raise EIndex
+                                end)) Q s''
+                            | Err e => wp (bind get (fun w' =>
+                                match get_act w' id with
+                                | Some a' => match a_fut a' with
+                                             | AfPending => set_act_fut id (AfExn e)
+                                             | _ => raise EInvalidState
+                                             end
+                                | None => raise EIndex
+                                end)) Q s''
+                            end) s') w).
+    { intros tgt b Hl. use transition_spec; [exact HR | exact Hl |]. intros r w1 H1. destruct r; cbv beta iota.
+      + do 2 wp_prim. apply (Hk (Ok b)). r_frame.
+      + wp_prim. apply (Hk (Err e)). r_frame. }
+    destruct next as [[]|]; apply Hcase; exact Hpre.
 Qed.
 
 Lemma do_out_spec path v : keeps (do_out path v).
@@ -838,16 +882,44 @@ Proof.
   wp_case; wp_prim; apply HQ; exact H1.
 Qed.
 
+Lemma after_waiting_once_spec fn aw wk again :
+  (forall i, keeps (again i)) -> keeps (after_waiting_once fn aw wk again).
+Proof.
+  intros Hag w0 w Q HR HQ. unfold after_waiting_once. destruct wk; try (wp_prim; apply HQ; exact HR).
+  do 4 wp_prim.
+  match goal with |- wp _ _ ?w' => assert (H0 : R w0 w') by r_frame end.
+  match goal with |- wp _ _ ?w' => destruct (st w') as [cur|] eqn:Hst end; [|wp_prim; apply HQ; exact H0].
+  destruct cur; try (wp_prim; apply HQ; exact H0).
+  assert (Hk : forall w1, R w0 w1 ->
+     wp (bind get (fun w' => match wrecalled w' with
+          | Some r => if Nat.eqb r id then bind (modify (fun w => w <| wrecalled := None |>)) (fun _ => again (Some id))
+                      else ret (XoInterrupted id)
+          | None => ret (XoInterrupted id)
+          end)) Q w1).
+  { intros w1 H1. do 2 wp_prim. wp_case; [|wp_prim; apply HQ; exact H1].
+    wp_case; [|wp_prim; apply HQ; exact H1]. do 2 wp_prim. eapply Hag; [r_frame | exact HQ]. }
+  wp_prim. wp_case.
+  - use fresh_frame; [exact H0|]. intros r w1 H1 S1. destruct r as [wid'|e]; cbv beta iota; [|apply HQ; exact H1].
+    wp_prim. apply Hk.
+    eapply R_st_label; [exact H1 | reflexivity | reflexivity | reflexivity | reflexivity |].
+    do 2 eexists. split; [rewrite S1; exact Hst|]. split; reflexivity.
+  - wp_prim. apply Hk; exact H0.
+Qed.
+
+Lemma await_current_spec fn k : (forall a b, keeps (k a b)) -> keeps (await_current fn k).
+Proof.
+  intros Hk w0 w Q HR HQ. unfold await_current. do 2 wp_prim.
+  destruct (st w) as [cur|]; [|wp_prim; apply HQ; exact HR].
+  destruct cur; try (wp_prim; apply HQ; exact HR). destruct wf.
+  - unfold set_t0'. do 2 wp_prim. wp_prim. apply HQ. r_frame.
+  - eapply Hk; eauto.
+Qed.
+
 Lemma after_waiting_spec fn aw wk : keeps (after_waiting fn aw wk).
 Proof.
-  intros w0 w Q HR HQ. unfold after_waiting. destruct wk; try (wp_prim; apply HQ; exact HR).
-  do 2 wp_prim. destruct (st w) as [cur|] eqn:Hst; [|wp_prim; apply HQ; exact HR].
-  destruct cur; try (wp_prim; apply HQ; exact HR).
-  wp_case; [|wp_prim; apply HQ; exact HR].
-  use fresh_frame; [exact HR|]. intros x w1 H1 S1. destruct x as [wid'|e]; cbv beta iota; [|apply HQ; exact H1].
-  do 3 wp_prim. apply HQ.
-  eapply R_st_label; [exact H1 | reflexivity | reflexivity | reflexivity | reflexivity |].
-  do 2 eexists. split; [rewrite S1; exact Hst|]. split; reflexivity.
+  unfold after_waiting. apply after_waiting_once_spec. intro i.
+  apply await_current_spec. intros a b. apply after_waiting_once_spec. intro j.
+  intros w0 w Q HR HQ. wp_prim. apply HQ; exact HR.
 Qed.
 
 Lemma execute_state_spec : keeps execute_state.
